@@ -492,7 +492,7 @@ func (v *Verifier) finish(r *Root, e *Enc) {
 				e.st = rt.st
 				renv := &SpecEnv{e: e, vars: rvars, cur: rt.st, old: map[string]string{}, errCtx: ct.Key + " ensures", noLocals: true}
 				t := renv.boolExpr(en.E)
-				r.addObl(&Obligation{Name: fmt.Sprintf("%s.ret%d", name, k+1), Kind: "ensures", Tags: en.Tags, Goal: fmt.Sprintf("(=> %s %s)", rt.reach, t), Src: en.Src})
+				r.addObl(&Obligation{Name: fmt.Sprintf("%s.ret%d", name, k+1), Kind: "ensures", Tags: en.Tags, Goal: fmt.Sprintf("(=> %s %s)", rt.reach, t), Src: en.Src + " [return at " + rt.pos + "]"})
 			}
 			e.st = final
 			continue
